@@ -1326,10 +1326,13 @@ package gmars
 //@   modifies ghost lex.*
 //@   ensures fresh(result) && parserOK(result) && result.lex == lex && fresh(result.symbols) && fresh(result.references)
 //@   ensures arr(result.lines) == 0 && arr(result.currentLine.labels) == 0 && arr(result.currentLine.a) == 0 && arr(result.currentLine.b) == 0
+// an "undefined symbol" error names a reference that really has no definition (the converse -- every reference is
+// looked at -- is a completeness statement over map iteration and is not claimed)
 //@ func (*parser).validateSymbols
 //@   panics [C05]
 //@   requires p != nil
 //@   modifies nothing
+//@   ensures [C03][C05] result != nil ==> exists k: Str :: has(p.references, k) && !has(p.symbols, k)
 //@   loop 1
 //@     invariant true
 //@ func (*parser).parse
